@@ -216,3 +216,44 @@ pub fn c03_optimal(c: &FragCase) -> Outcome {
     }
     Ok(lines.len() >= 2 && breaks != fb)
 }
+
+
+/// A6 — the shape Verus unit U2 ASSUMES of smawk::online_column_minima: the matrix closure is called only with
+/// i < j < size and i < m.len(), on a table m with m[0].0 == 0 and m[k].0 < k; the returned table has length `size`
+/// and the same shape. Checked here on the real smawk crate with the documented cost model as matrix.
+#[cfg(feature = "full")]
+pub fn a6_smawk_shape(c: &FragCase) -> Outcome {
+    let n = c.frags.len();
+    let mut widths = vec![0.0f64];
+    for f in &c.frags {
+        let w = widths[widths.len() - 1] + f.w + f.ws;
+        widths.push(w);
+    }
+    let size = widths.len();
+    let bad = std::cell::RefCell::new(None::<String>);
+    let calls = std::cell::Cell::new(0usize);
+    let table_ok = |m: &[(usize, f64)]| -> bool { !m.is_empty() && m[0].0 == 0 && m.iter().enumerate().skip(1).all(|(k, e)| e.0 < k) };
+    let lw = c.widths.last().copied().unwrap_or(0.0);
+    let minima = smawk::online_column_minima(0.0, size, |m, i, j| {
+        calls.set(calls.get() + 1);
+        if !(i < j && j < size && i < m.len() && table_ok(m)) && bad.borrow().is_none() {
+            *bad.borrow_mut() = Some(format!("matrix called with i={} j={} size={} m.len()={} table_ok={}", i, j, size, m.len(), table_ok(m)));
+        }
+        if !(i < j && j < size && i < m.len()) {
+            return 0.0;
+        }
+        // a cost of the documented form (any total function would do for the shape)
+        let line = widths[j] - widths[i] - c.frags[j - 1].ws + c.frags[j - 1].p;
+        let target = lw.max(1.0);
+        let mut cost = m[i].1 + c.pen[0] as f64;
+        if line > target { cost += (line - target) * c.pen[1] as f64; } else if j < n { cost += (target - line) * (target - line); }
+        cost
+    });
+    if let Some(b) = bad.into_inner() {
+        return Err(b);
+    }
+    if minima.len() != size || !table_ok(&minima) {
+        return Err(format!("returned table {:?} does not have the assumed shape (size {})", minima, size));
+    }
+    Ok(calls.get() >= 2)
+}
